@@ -6,16 +6,27 @@
    Spec: Spec/ExprSyntax.v ([tokens_of e] = the items the printed text of [e] lexes to;
    [wf_expr] excludes only trees without concrete syntax).
 
-   The theorems are at token level: they hold for every well-formed tree (no bound on size or
-   nesting).  That the text printed by the model printer lexes to [tokens_of e] is not proved
-   here (the lexer model belongs to another file); it is checked on every run by the
-   correspondence harness (real scanner on the real String() vs [tokens_of] of the real tree).
+   Token level: the theorems hold for every well-formed tree (no bound on size or nesting).
+   Text level (C17_text_roundtrip, C17_text_injective below): the scanner model of parse/lexer.go
+   (Model/Lexer.v, lexExpr) on the string the printer model writes sends the items of [tokens_of e]
+   (Proofs/LexPrintTop.v), the parser model does not look at item positions (Proofs/ExprParserStrip.v) and its
+   result does not depend on the budget (Proofs/ExprParserFuel.v): string -> items -> the same tree up to
+   node positions, for every tree that is well-formed and lexically well-formed ([lex_ok]: ASCII identifiers
+   that are not keywords, string literals in the printer's own quoted form, float texts of the printed shape).
+   Print COMMANDS at text level (C17_lex_print_command, C17_print_command_text_roundtrip,
+   C17_print_command_text_injective, C17_placeholders_by_text_scanner): the scanner model in file mode on the
+   string PrintNode.String() writes sends "{", the items of [tokens_of_print] and EOF (lexText at "{",
+   lexLeftDelim, lexBeginTag, the expression and directive lists inside the tag, "}" -> lexRightDelim, lexText
+   at the end of the input); the parsePrint model on these items returns the command up to positions.  Not
+   covered: the command-level dispatch of parse.SoyFile (itemList -> textOrTag -> beginTag's implicit-print
+   case), which hands these items to parsePrint -- that step stays with the harness.
    Property theorems only. *)
 (* source tie by translation: the lemmas of these files are obligations of this property *)
 From Soy Require Import Proofs.SourceTieExpr Proofs.SourceTieQuote Proofs.SourceTieAstPrint Proofs.SourceTieUnquote.
 From Soy Require Import Model.Bytes Model.Num Model.Values Model.Ast Model.Token Model.NumLit Model.Quote Model.ExprParser
   Model.AstPrint Generated.Tables Spec.ExprSyntax Proofs.ExprParserRules Proofs.LiteralProofs Proofs.ExprParserProofs Proofs.PlaceholderTextProofs.
 From Soy Require Import Model.Outcome Model.MsgId Proofs.MsgIdProofs.
+From Soy Require Import Model.Lexer Model.Parser Proofs.LexPrintMain Proofs.LexParseText Proofs.LexPrintCmd Proofs.PrintCmdText.
 From Soy Require Import Model.RawText Model.Parser Model.AstPrintCmd Spec.CmdSyntax Proofs.CmdRoundtripBase Proofs.CmdRoundtripRules Proofs.CmdRoundtrip.
 Open Scope N_scope.
 
@@ -36,6 +47,70 @@ Theorem C17_print_injective : forall e1 e2,
   map strip_tok (tokens_of e1) = map strip_tok (tokens_of e2) -> strip_pos e1 = strip_pos e2.
 Proof. exact print_injective. Qed.
 Print Assumptions C17_print_injective.
+
+(* ---- text level ---- *)
+(* parse.Expr(String(e)) = e up to positions: the string the printer model writes for e, scanned by the
+   scanner model in expression mode (lexExpr) and parsed by the parser model under the entry point's
+   own budget ([parse_expr_string]: Model/Lexer.v lex_items, Model/Parser.v soy_expr, the unicode classes
+   being the tables regenerated from the toolchain), returns a tree equal to e up to node positions. *)
+Theorem C17_text_roundtrip : forall e txt,
+  wf_expr e -> lex_ok e -> print_node e = Some txt ->
+  exists e' st', parse_expr_string is_letter_tbl is_digit_tbl txt = Ok (POk e' st') /\ strip_pos e' = strip_pos e.
+Proof. exact text_roundtrip_tbl. Qed.
+Print Assumptions C17_text_roundtrip.
+
+(* two such expressions that print the same STRING are the same expression up to positions *)
+Theorem C17_text_injective : forall e1 e2 txt,
+  wf_expr e1 -> lex_ok e1 -> wf_expr e2 -> lex_ok e2 ->
+  print_node e1 = Some txt -> print_node e2 = Some txt -> strip_pos e1 = strip_pos e2.
+Proof. exact print_string_injective_tbl. Qed.
+Print Assumptions C17_text_injective.
+
+(* the expression parser model does not look at item positions (any item list, any budget): erasing
+   the positions of the items erases the positions of the result and changes nothing else *)
+Theorem C17_parser_ignores_positions : forall f ts,
+  ExprParserStrip.zr strip_pos (parse_expr_top f ts) = parse_expr_top f (map strip_tok ts).
+Proof. exact ExprParserStrip.parse_expr_top_strip. Qed.
+Print Assumptions C17_parser_ignores_positions.
+
+(* ---- print commands at text level ---- *)
+(* lex(String(n)) for a print command n that is well-formed and lexically well-formed (lex_ok_print: as lex_ok for
+   the expression and every directive argument; directive names are ASCII words that are not keywords): the
+   scanner model in FILE mode returns "{", then items with the types and texts of tokens_of_print n, then EOF *)
+Theorem C17_lex_print_command : forall n txt, wf_print n -> lex_ok_print n -> print_node n = Some txt ->
+  exists ld mid e, lex_items is_letter_tbl is_digit_tbl (lex_budget txt) false txt = Ok (ld :: mid ++ [e]) /\
+    t_typ ld = itemLeftDelim /\ t_val ld = [123] /\ map tv mid = map tv (tokens_of_print n) /\ t_typ e = itemEOF.
+Proof. exact lex_print_command_tbl. Qed.
+Print Assumptions C17_lex_print_command.
+
+(* those items, after the opening "{", put through the parsePrint model (any budget above a bound, any position q
+   for the command node): the print command itself, up to node positions *)
+Theorem C17_print_command_text_roundtrip : forall p arg dirs txt,
+  wf_print (NPrint p arg dirs) -> lex_ok_print (NPrint p arg dirs) -> print_node (NPrint p arg dirs) = Some txt ->
+  exists ld its, lex_items is_letter_tbl is_digit_tbl (lex_budget txt) false txt = Ok (ld :: its) /\ t_typ ld = itemLeftDelim /\
+    exists f0, forall f q, (f0 <= f)%nat ->
+      exists n' st', parse_print f q (pst_init its) = POk n' st' /\ strip_pos n' = strip_pos (NPrint p arg dirs).
+Proof. exact print_command_text_roundtrip. Qed.
+Print Assumptions C17_print_command_text_roundtrip.
+
+(* two such print commands that print the same STRING are the same print command up to positions *)
+Theorem C17_print_command_text_injective : forall n1 n2 txt,
+  wf_print n1 -> lex_ok_print n1 -> wf_print n2 -> lex_ok_print n2 ->
+  print_node n1 = Some txt -> print_node n2 = Some txt -> strip_pos n1 = strip_pos n2.
+Proof. exact print_command_string_injective. Qed.
+Print Assumptions C17_print_command_text_injective.
+
+(* C17_placeholders_by_text (below) with the scanner MODEL in place of the abstract scanner and its hypothesis:
+   two placeholders of one message whose texts are those of well-formed, lexically well-formed print commands
+   get the same name only if they are the same print command up to positions *)
+Theorem C17_placeholders_by_text_scanner : forall order body es nm,
+  is_perm order -> msg_entries body = Ok es -> msg_names order body = Ok nm ->
+  forall b1 b2 n1 n2 s1 s2,
+  wf_print n1 -> lex_ok_print n1 -> wf_print n2 -> lex_ok_print n2 -> print_node n1 = Some s1 -> print_node n2 = Some s2 ->
+  In (b1, s1) es -> In (b2, s2) es ->
+  name_of nm b1 s1 = name_of nm b2 s2 -> b1 = b2 /\ strip_pos n1 = strip_pos n2.
+Proof. exact placeholders_by_text_scanner. Qed.
+Print Assumptions C17_placeholders_by_text_scanner.
 
 (* The same for print commands: expression, directives with their arguments, closing brace. *)
 Theorem C17_print_command_roundtrip : forall p arg dirs rest,
@@ -162,6 +237,36 @@ Example C17_roundtrip_nonvacuous :
   (exists st, parse_expr_top 60 (tokens_of ex_tern ++ [T_rdelim]) = POk ex_tern st).
 Proof. split; eexists; vm_compute; reflexivity. Qed.
 
+(* text level, by computation: the printed strings of the two trees above go through scanner and parser
+   models and come back as the trees, positions aside *)
+Definition c17_text_rt (e : node) : Prop :=
+  match print_node e with
+  | Some txt => match parse_expr_string is_letter_tbl is_digit_tbl txt with
+                | Ok (POk e' _) => strip_pos e' = strip_pos e
+                | _ => False
+                end
+  | None => False
+  end.
+Example C17_text_roundtrip_nonvacuous : c17_text_rt ex_nested /\ c17_text_rt ex_tern.
+Proof. split; vm_compute; reflexivity. Qed.
+
+(* a print command with directives, by computation: its printed string, the scanner model's items in file mode,
+   and the parsePrint model on them *)
+Definition ex_print : node :=
+  NPrint 0 ex_nested [NDirective 0 (b "truncate") [NInt 0 5; NBool 0 true]; NDirective 0 (b "noAutoescape") []].
+Example C17_print_command_text_nonvacuous :
+  print_node ex_print = Some (b "{(1 + $a.b?[0]) * -(5)|truncate:5,true|noAutoescape}") /\
+  match print_node ex_print with
+  | Some txt =>
+      match lex_items is_letter_tbl is_digit_tbl (lex_budget txt) false txt with
+      | Ok (ld :: its) =>
+          map tv (removelast its) = map tv (tokens_of_print ex_print) /\
+          match parse_print 60 0 (pst_init its) with POk n' _ => strip_pos n' = strip_pos ex_print | _ => False end
+      | _ => False
+      end
+  | None => False
+  end.
+Proof. split; [vm_compute; reflexivity|]. vm_compute. split; reflexivity. Qed.
 (* ---- extension to template bodies (the property's text speaks of expressions and print
    commands; this is the same statement for the command forms whose String() is source syntax
    the parser accepts again: raw text, print, {log}, {debugger}, {let} in both forms,
